@@ -674,6 +674,63 @@ fn gen_c16(rng: &mut Rng, thorough: bool, out: &mut Cases) {
     }
 }
 
+fn gen_c02(rng: &mut Rng, thorough: bool, out: &mut Cases) {
+    // encoding: well-formed messages of every kind
+    let n = if thorough { 100_000 } else { 5_000 };
+    for i in 0..n {
+        let o = msg_opts_for(rng, i);
+        let m = gen_message(rng, &o);
+        let mut w = W::new();
+        w.msg(&m);
+        out.push(61, w);
+        // decoding of canonical bytes, with a suffix, and of every / some truncations
+        if let Ok(b) = std::panic::catch_unwind(|| m.as_bytes()) {
+            let sh = m.storage_header.is_some();
+            let mut full = b.clone();
+            full.extend_from_slice(&gen_suffix(rng));
+            let mut w = W::new();
+            w.bool(sh);
+            w.b(&full);
+            out.push(60, w);
+            if b.len() < 400 {
+                let cuts: Vec<usize> = if i % 8 == 0 { (0..b.len()).collect() } else { vec![rng.below(b.len() as u64 + 1) as usize] };
+                for k in cuts {
+                    let mut w = W::new();
+                    w.bool(if i % 16 == 1 { !sh } else { sh });
+                    w.b(&b[..k]);
+                    out.push(60, w);
+                }
+            }
+        }
+    }
+    // decoding: dialect, malformed, mutated, random inputs in both storage modes
+    let n = if thorough { 300_000 } else { 20_000 };
+    let mut ins = vec![];
+    dialect_inputs(rng, n, &mut ins);
+    hostile_inputs(rng, n, &mut ins);
+    for (sh, bs) in ins {
+        let mut w = W::new();
+        w.bool(sh);
+        w.b(&bs);
+        out.push(60, w);
+    }
+    // junk in front of storage-header messages, partial markers
+    for i in 0..n / 10 {
+        let m = gen_message(rng, &MsgOpts { storage: Some(true), ..MsgOpts::default() });
+        if let Ok(b) = std::panic::catch_unwind(|| m.as_bytes()) {
+            let mut buf = gen_junk(rng);
+            buf.extend_from_slice(&b);
+            if i % 3 == 0 {
+                buf.extend_from_slice(&gen_junk(rng));
+            }
+            let mut w = W::new();
+            w.bool(true);
+            w.b(&buf);
+            out.push(60, w);
+        }
+    }
+}
+
 fn gen_c19(rng: &mut Rng, thorough: bool, out: &mut Cases) {
     let alphabet: [u8; 25] = [
         0x00, 0x41, 0x7F, 0x80, 0x8F, 0x90, 0x9F, 0xA0, 0xBF, 0xC0, 0xC1, 0xC2, 0xDF, 0xE0, 0xE1, 0xEC, 0xED, 0xEE, 0xEF, 0xF0, 0xF1,
@@ -861,6 +918,7 @@ pub fn generate(prop: &str, seed: u64, thorough: bool) -> Cases {
     let mut out = Cases::new();
     match prop {
         "C01" => gen_c01(&mut rng, thorough, &mut out),
+        "C02" => gen_c02(&mut rng, thorough, &mut out),
         "C03" => gen_c03(&mut rng, thorough, &mut out),
         "C04" => gen_c04(&mut rng, thorough, &mut out),
         "C05" => gen_c05(&mut rng, thorough, &mut out),
